@@ -4,10 +4,10 @@ Where `Faithful` / `Sound` come from.
 
 `ShapeOK b` (no `FixedSizeBinary(0)`; the keys builder of every dictionary is an integer leaf) is a property of the
 builder's shape: it only depends on `takeRest b`, and it holds of the builder created for a data type satisfying
-`SchemaOK`.  `StrictDict b` is the strict dictionary clause of agent-refine's state invariant (no key designates a
-missing value), as a predicate of its own so that it can be extracted from `WFB` after the merge.
+`SchemaOK`.  `StrictDict b` is the strict dictionary clause of the state invariant `WFB` (no key designates a
+missing value), as a predicate of its own; `WFB_StrictDict` extracts it from `WFB`.
 
-    Faithful_of_strict : WFB b → StrictDict b → ShapeOK b → Faithful b
+    Faithful_of_strict : StrictDict b → ShapeOK b → Faithful b
 -/
 namespace SaModel.Lemmas.C03
 open SaModel SaModel.Build SaModel.Spec
@@ -78,8 +78,8 @@ theorem ShapeOK_of_takeRest_eq (b b' : B) (h : takeRest b' = takeRest b) (hb : S
 /-! ### the schema side -/
 
 mutual
-/-- no `FixedSizeBinary(0)` (known finding).  (Dictionary keys of an integer type used to be demanded here too: now
-`build_builder` refuses other key types — repo fix 7359431 — and `BuiltFor` carries `isIntDT k`.) -/
+/-- no `FixedSizeBinary(0)` (known finding).  (Integer dictionary key types are not demanded here: `build_builder`
+refuses other key types — repo fix 7359431 — and `BuiltFor` carries `isIntDT k`.) -/
 def SchemaOK : DataType → Prop
   | .fixedSizeBinary n => n ≠ 0
   | .list f => SchemaOKF f
